@@ -53,6 +53,19 @@ ENTRIES = {
 SUBS6 = "{1, 2, 3, 4, 5, 6}"
 
 
+def _cap_runs(path, limit=40):
+    """Keep only the first `limit` runs of a file of deviating runs (the property layer judges each of them; thousands of
+    identical deviations of a broken tree add nothing but time)."""
+    out, n = [], 0
+    for ln in open(path):
+        if '"name":"reset"' in ln.replace(" ", ""):
+            n += 1
+            if n > limit:
+                break
+        out.append(ln)
+    open(path, "w").writelines(out)
+
+
 def _clause(ck, tag):
     try:
         text = open(os.path.join(ck.work, tag + ".out")).read()
@@ -114,6 +127,7 @@ def _gen_and_replay(ck, hb, i, consts, est, simulate=None):
     if s.get("extra", {}).get("deviating_runs", 0):
         vf.log(f"[C43] {s['extra']['deviating_runs']} replayed schedules of generation {i} deviate from the expected "
                f"event list; judged by the property layer")
+        _cap_runs(dev)
         _validate(ck, dev, f"spec->impl/{i}", est, rerun={"kind": "replay"})
     os.remove(f"{ck.work}/obs_{i}.ndjson")
 
